@@ -25,6 +25,16 @@ def lst(l):
     return ",".join(str(x) for x in l) if l else "-"
 
 
+def construction_order(cfg):
+    """the order in which the implementation side constructs (and so starts the processes of) the components"""
+    order = cfg["order"]
+    if cfg.get("ctor_edges"):
+        # the documented constructor arguments in_edges / out_edges (machines and sinks): edges first, then the nodes with their
+        # edge lists in the configuration's order, then connect() as always (it finds the edges already registered)
+        order = [c for c in order if c[0] == "E"] + [c for c in order if c[0] == "N"]
+    return order
+
+
 def model_text(cfg):
     out = ["CASE factory %d %d" % (cfg["T"], cfg.get("maxsteps", 6000))]
     for n in cfg["nodes"]:
@@ -36,7 +46,7 @@ def model_text(cfg):
             out.append("EDGE buffer %d %s %s %d %d" % (e["cap"], e["mode"], lst(e["delays"]), e["src"], e["dst"]))
         else:
             out.append("EDGE fleet %d %d %d %d %d" % (e["cap"], e["fdelay"], e["transit"], e["src"], e["dst"]))
-    out.append("ORDER " + " ".join(cfg["order"]))
+    out.append("ORDER " + " ".join(construction_order(cfg)))
     out.append("END")
     return "\n".join(out) + "\n"
 
@@ -144,11 +154,7 @@ def sel_arg(log, nidx, what, p, style):
 
 def _construct(cfg, mods, env, log, nodes, edges):
     log.nodes = nodes
-    order = cfg["order"]
-    if cfg.get("ctor_edges"):
-        # the documented constructor arguments in_edges / out_edges (machines and sinks): edges first, then the nodes with their
-        # edge lists in the configuration's order, then connect() as always (it finds the edges already registered)
-        order = [c for c in order if c[0] == "E"] + [c for c in order if c[0] == "N"]
+    order = construction_order(cfg)
     for c in order:
         i = int(c[1:])
         if c[0] == "N":
@@ -433,6 +439,12 @@ def run_impl(cfg):
             for key, flag in (("in_edge_selection", 0), ("out_edge_selection", 1)):
                 for v in s.get(key, []) or []:
                     out.append("S %d %d %d" % (i, flag, v))
+            il = getattr(nd, "item_list", None)
+            if isinstance(il, dict) and il:
+                # the sink's per-item conveyor record (implementation side only; part of the reproducibility digest): its size
+                # and a digest of its keys and values
+                import zlib
+                out.append("OBS %d %d ilist %d %d" % (cfg["T"], i, len(il), zlib.crc32(repr(sorted((str(k), str(v)) for k, v in il.items())).encode()) % 1000000007))
         for i, e in enumerate(cfg["edges"]):
             ed = edges[i]
             st = store_of(ed)
@@ -893,6 +905,10 @@ def gen_config_sc(rng):
         n["outsel"] = gen_policy(rng, max(1, len(n["outs"]))) if n["kind"] != "sink" else ("FA",)
         if n["kind"] == "source":
             n["delays"] = rng.choice([[1], [2], [1, 2], [3, 1, 1], [2, 5]])
+            if n["blocking"] and n["style"] != "const" and n["setup"] == 0 and rng.random() < 0.15:
+                # a blocking source may release items with no time in between (documented: zero inter-arrival is invalid for
+                # non-blocking sources only): items created at simulated time 0
+                n["delays"] = rng.choice([[0, 2], [0, 0, 3], [0, 1, 1]])
         elif n["kind"] in ("machine", "splitter", "combiner"):
             n["delays"] = rng.choice([[0], [1], [2], [1, 3], [0, 2]])
             if n.get("slow"):
